@@ -43,7 +43,12 @@ GROUP = {"01": ["C03", "C07"], "02": ["C01", "C02", "C15"], "03": ["C01", "C02",
 for f in sorted(glob.glob(os.path.join(V, "mutants", "benign", "*.diff"))):
     b = os.path.basename(f)[:-5]
     parts = b.split("-")
-    props = GROUP.get(parts[1], ["all"]) if b.startswith("b") and len(parts) > 2 else ["C17", "C08"]
+    if b.startswith("c17-extract"):
+        props = ["C17", "C08"]
+    elif b.startswith("b") and len(parts) > 2:
+        props = GROUP.get(parts[1], ["all"])
+    else:
+        props = ["all"]  # second batch: every property's rules, in `selftest` only
     out.append({"id": "benign-" + b, "patch": os.path.relpath(f, V), "properties": props, "expect": "silent",
                 "what": "behaviour-preserving refactor: the check must stay silent"})
 json.dump(out, open(os.path.join(V, "mutants", "index.json"), "w"), indent=1)
